@@ -416,6 +416,20 @@ fn run_term(e: Exec, t: Term, prefix: &std::path::Path, detached: bool) -> Resul
     }
 }
 
+/// Puts the harness's own environment back when the case is over.
+struct RestoreEnv(Vec<(Bytes, Option<std::ffi::OsString>)>);
+impl Drop for RestoreEnv {
+    fn drop(&mut self) {
+        for (k, old) in self.0.drain(..) {
+            let name = OsStr::from_bytes(&k);
+            match old {
+                Some(v) => std::env::set_var(name, v),
+                None => std::env::remove_var(name),
+            }
+        }
+    }
+}
+
 fn fnv64(d: &[u8]) -> u64 {
     let mut h: u64 = 0xcbf29ce484222325;
     for b in d {
@@ -631,6 +645,24 @@ pub fn check_case(ctx: &Ctx, case: &BuilderCase, rep: &mut CaseReport) -> CaseRe
         }
         runs.push((exec, model, case.term, files, "main".into()));
         let nruns = runs.len();
+        // "removed names are absent unless set again": between the builder calls and
+        // the terminator the parent process itself sets every name that a builder
+        // call removed and none set again; the description is a copy, so the child
+        // must still not see it
+        let mut parent_sets: Vec<(Bytes, Option<std::ffi::OsString>)> = vec![];
+        for op in &case.ops {
+            if let BOp::EnvRemove(k) = op {
+                let usable = !k.is_empty() && !k.contains(&b'=') && !k.contains(&0) && k.as_slice() != b"PATH";
+                let absent_everywhere = runs.iter().all(|(_, m, _, _, _)| m.env.as_ref().map(|e| !e.contains_key(k)).unwrap_or(true));
+                let edited_somewhere = runs.iter().any(|(_, m, _, _, _)| m.env.is_some());
+                if usable && absent_everywhere && edited_somewhere && !parent_sets.iter().any(|(n, _)| n == k) {
+                    let name = OsStr::from_bytes(k);
+                    parent_sets.push((k.clone(), std::env::var_os(name)));
+                    std::env::set_var(name, "set-in-the-parent-after-the-removal");
+                }
+            }
+        }
+        let _restore = RestoreEnv(parent_sets);
         let mut consumed: Vec<(u64, u64)> = vec![];
         for (n, (e, mut m, t, files, which)) in runs.into_iter().enumerate() {
             let prefix = sc.path(&format!("rep{}", n));
